@@ -47,10 +47,10 @@ Definition ex_cfg (fix_labels fix_ser : bool) : config :=
        XCons (XBlock (XCons (XParseTime 2 l_time_error) XNil))
        (XCons (XRedact 8 l_redacted)
        (XCons (XBase (T.TDrop [(1%nat, T.VEq v_debug)] 100 l_dbg 0 0)) XNil));
-     c_outputs := [ {| oc_ser := {| S.c_env := [n_host; n_app]; S.c_hidden := [];
-                                    S.c_rewrite := [(n_log, [S.RcUnescape])] |};
+     c_outputs := [ {| oc_kind := OFluentd {| S.c_env := [n_host; n_app]; S.c_hidden := [];
+                                              S.c_rewrite := [(n_log, [S.RcUnescape])] |};
                        oc_pack := K.fluentd_config 1 0 0 [] |} ];
-     c_buflen := 192; c_linebuf := 384; c_local_off := 0;
+     c_buflen := 192; c_linebuf := 384; c_local_off := 0; c_json := (fun _ => []);
      c_fix_labels := fix_labels; c_fix_ser := fix_ser |}.
 
 Definition O := T.tiny_oracles.
@@ -202,3 +202,49 @@ Proof.
   split; [exact ex_config_ok|]. split; [exact ex_lines_valid|]. split; [exact ex_cap|].
   split; [exact (proj1 ex_texts)|]. split; [exact (proj2 ex_texts)|]. exact ex_run.
 Qed.
+
+(* ---------- the shape of the sample configuration: a fluentdForward and a datadog output ---------- *)
+Definition toy_json (m : list (bytes * bytes)) : bytes :=
+  concat (map (fun kv => fst kv ++ [61]%N ++ snd kv ++ [59]%N) m).     (* stands for json.Marshal: any total function *)
+
+Definition ex_cfg2 : config :=
+  let c := ex_cfg true true in
+  {| c_parser := c_parser c; c_nfields := c_nfields c; c_schema := c_schema c; c_locs := c_locs c;
+     c_extract := c_extract c; c_okeys := c_okeys c; c_tag := c_tag c; c_mkeys := c_mkeys c;
+     c_transforms := c_transforms c;
+     c_outputs := c_outputs c ++ [ {| oc_kind := ODatadog [n_host; n_app]; oc_pack := K.datadog_config 1000 5242880 |} ];
+     c_buflen := c_buflen c; c_linebuf := c_linebuf c; c_local_off := 0; c_json := toy_json;
+     c_fix_labels := true; c_fix_ser := true |}.
+
+Lemma ex2_config_ok : config_ok O ex_cfg2.
+Proof.
+  constructor; cbn.
+  - reflexivity.
+  - unfold locs_ok. cbn. lia.
+  - lia.
+  - split; exact I.
+  - repeat split; lia.
+  - repeat constructor.
+  - repeat constructor.
+  - repeat constructor.
+  - constructor; [reflexivity|constructor; [exact I|constructor]].
+  - reflexivity.
+  - reflexivity.
+Qed.
+
+(* the first example record goes to both outputs; the datadog stream holds the visible fields, the timestamp in
+   milliseconds and ddtags = the tag *)
+Lemma ex2_run :
+  config_ok O ex_cfg2 /\
+  match process_record O ex_cfg2 g_init (new_conn ex_cfg2) (1600000000, 0)%Z 0%Z rec_good1 with
+  | Ok (_, _, RPassed 0 [s1; s2] _) =>
+      s1 <> [] /\
+      (* level=notice; time=2020-01-02T03:04:05Z; source=src; log=hello REDACTED; timestamp=1577934245000; ddtags=t.appB *)
+      s2 = toy_json [(n_level, [110;111;116;105;99;101]%N);
+                     (n_time, [50;48;50;48;45;48;49;45;48;50;84;48;51;58;48;52;58;48;53;90]%N);
+                     (n_source, [115;114;99]%N);
+                     (n_log, [104;101;108;108;111;32;82;69;68;65;67;84;69;68]%N);
+                     (b_timestamp, [49;53;55;55;57;51;52;50;52;53;48;48;48]%N); (b_ddtags, [116;46;97;112;112;66]%N)]
+  | _ => False
+  end.
+Proof. split; [exact ex2_config_ok|]. vm_compute. split; [discriminate|reflexivity]. Qed.
